@@ -80,9 +80,11 @@ AddAll(F, st, xs) == IF xs = <<>> THEN st ELSE AddAll(F, OAddEnt(F, st, Head(xs)
 OAddEnts(F, st, xs) == R(AddAll(F, st, xs), "", "")
 \* vmf.remove_ent(e) and e.remove()
 ORemoveEnt(F, st, x) == R(Upd(F, st, x, [st.ent[x] EXCEPT !.inmap = FALSE]), "", "")
-\* e['classname'] = v.  The worldspawn can never be given another class.
+\* e['classname'] = v.  The worldspawn can never be given another class: the attempt is refused
+\* (as the code does it, the key is rewritten as 'worldspawn' and ValueError raised).
 OSetClass(F, st, x, v) ==
-    IF st.ent[x].spawn /\ Fd(F.fold, v) # "worldspawn" THEN R(st, "ValueError", "")
+    IF st.ent[x].spawn /\ Fd(F.fold, v) # "worldspawn"
+    THEN R(Upd(F, st, x, [st.ent[x] EXCEPT !.cls = "worldspawn"]), "ValueError", "")
     ELSE R(Upd(F, st, x, [st.ent[x] EXCEPT !.cls = v]), "", "")
 \* e[k] = v for a spelling k of 'targetname' (the first spelling used is kept)
 OSetName(F, st, x, v, k) ==
@@ -101,7 +103,7 @@ OPopClass(F, st, x) ==
 \* e.clear(): no keys left; c is the class it ends up with ("" as the code does, or the
 \* documented "info_null").  Refused for the worldspawn.
 OClear(F, st, x, c) ==
-    IF st.ent[x].spawn THEN R(st, "ValueError", "")
+    IF st.ent[x].spawn THEN OSetClass(F, st, x, "info_null")
     ELSE R(Upd(F, st, x, [st.ent[x] EXCEPT !.cls = c, !.name = "", !.tk = ""]), "", "")
 \* e.copy(vmf_file=m): a new object with the same keys, not in any map.
 OCopy(F, st, x, p, m) ==
